@@ -2,7 +2,10 @@
    moov PAYLOADS as the model keeps and rewrites them.  Proofs in Mp4/BoxProofs.v.  That the returned metadata is
    header ++ ftyp payload ++ header ++ put_nodes kids' is the top-level assembly (Mp4/San.v finish), proved elsewhere. *)
 From Coq Require Import List NArith ZArith Bool.
-From MS Require Import Base.Bytes Base.Outcome Mp4.Header Mp4.Box Mp4.San Mp4.Spec Mp4.ShiftSpec Mp4.BoxProofs.
+From Coq.Strings Require Import Byte.
+From MS Require Import Base.Bytes Base.Outcome Base.Prog Mp4.Header Mp4.Box Mp4.San Mp4.Spec Mp4.ShiftSpec Mp4.BoxProofs
+  Mp4.LoopProofsRewrite.
+Import ListNotations.
 Open Scope N_scope.
 
 (* the tree kept for an accepted moov serialises to its payload (no rewrite: identical), and after a successful
@@ -25,3 +28,21 @@ Theorem C04_ftyp_identical : forall (p major : bytes) (brands : list bytes), par
   length major = 4%nat /\ Forall (fun b => length b = 4%nat) brands.
 Proof. exact ftyp_identical. Qed.
 Print Assumptions C04_ftyp_identical.
+
+(* ================================================================== TOP LEVEL (whole inputs; proof in Mp4/LoopProofsRewrite.v)
+   the returned metadata, read as boxes by the specification: its ftyp payload is the input's ftyp payload byte for byte;
+   its moov payload has the length of the input's last moov payload and equals it outside the chunk-offset entry
+   tables that the specification finds in the input's payload *)
+Theorem C04_toplevel :
+  forall (cfg : config) (lenient : bool) (inp : input) (fuel : nat) (o : out) (md : bytes) (pad : N),
+  ilen inp <= U64MAX -> (forall t, cumulative_mdat_box_size cfg = Some t -> t <= U32MAX) ->
+  mp4_sanitize cfg lenient U64MAX' inp fuel = Ok o -> o_metadata o = Some (md, pad) ->
+  exists bs f m mp' psz rs,
+    tiling (cumulative_mdat_box_size cfg) inp = Some bs /\ the_ftyp bs = Some f /\ last_moov bs = Some m /\
+    metadata_shape (md_input md pad) = Some (tb_payload inp f, mp', psz) /\
+    co_regions (tb_payload inp m) = Some rs /\
+    blen mp' = blen (tb_payload inp m) /\
+    masked_eq rs (tb_payload inp m) mp' = true.
+Proof. exact C04_toplevel_lemma. Qed.
+Print Assumptions C04_toplevel.
+
